@@ -117,6 +117,9 @@ func ruleReduceDriver(c *Ctx, prop string) {
 		return
 	}
 	shapes := [][]int64{{5}, {2, 3}, {3, 1}, {2, 3, 4}, {1, 2, 3}, {2, 3, 4, 5}, {3, 2, 1, 2}, {1, 2, 3, 2}}
+	if c.tier == "thorough" {
+		shapes = append(shapes, []int64{2, 3, 4, 5, 6}, []int64{1, 1, 2, 1, 3}, []int64{2, 2}, []int64{1}, []int64{4, 1, 1, 2})
+	}
 	bad, cells := "", 0
 	badPos := c.pos(driver.Pos())
 	for _, sh := range shapes {
@@ -230,7 +233,136 @@ func ruleReduceDriver(c *Ctx, prop string) {
 	}
 	c.counts["R34.driver_cells"] += cells
 	c.decide(bad == "", "R34", "R34b:driver:ops.ReduceAxes", badPos,
-		fmt.Sprintf("%d table cells (8 shapes of rank 1..4 x axis lists, unsorted and with a duplicate): every reduction is along axis 1 of the (outer, extent, inner) view, distinct axes in descending order, the result has the reduced shape, the argument keeps its shape", cells), bad)
+		fmt.Sprintf("%d table cells (shapes of rank 1..4, 1..5 in the thorough tier, x axis lists, unsorted and with a duplicate): every reduction is along axis 1 of the (outer, extent, inner) view, distinct axes in descending order, the result has the reduced shape, the argument keeps its shape", cells), bad)
 }
 
 func typesPointerTo(t types.Type) types.Type { return types.NewPointer(t) }
+
+// R35 — Reshape's shape arithmetic by finite table (C07: "0 copies the input dimension and a single -1 is
+// inferred ... element-count mismatch, two -1 entries ... yields an error, never a tensor").
+//
+// Cells: input shapes of rank 0..4 x target lists built from the factorizations of the element count, with a
+// 0 at every position where ONNX allows it (position < input rank), one -1 at every position, both, and the
+// invalid requests: two -1, a product that does not match, a 0 beyond the input's rank. The partial
+// interpreter binds inputs[1] to the target list and inputs[0] to the shape and reports
+//   refused      a valid request runs into a decided error branch / panic,
+//   wrong-shape  gorgonia's Reshape is reached with another list than the ONNX result,
+//   accepted     an invalid request reaches gorgonia's Reshape with a list it accepts (all entries > 0 and the
+//                right product).
+func ruleReshapeTable(c *Ctx, prop string) {
+	oi := c.opByName("Reshape")
+	if oi == nil {
+		c.undecided("R35", "R35:reshape-table", "", "operator Reshape not found")
+		return
+	}
+	apply := oi.methods["Apply"]
+	ar := &axisRun{c: c, seen: map[string]bool{}}
+	args := []pval{{k: pRecv}, {k: pInputs}}
+	shapes := [][]int64{{}, {6}, {2, 3}, {3, 2, 2}, {1, 6}, {2, 1, 3}, {2, 3, 1, 2}}
+	if c.tier == "thorough" {
+		shapes = append(shapes, []int64{4, 3, 2}, []int64{1}, []int64{2, 2, 2, 3}, []int64{5, 1, 1})
+	}
+	var factor func(n int64, parts int) [][]int64
+	factor = func(n int64, parts int) [][]int64 {
+		if parts == 1 {
+			return [][]int64{{n}}
+		}
+		var out [][]int64
+		for d := int64(1); d <= n; d++ {
+			if n%d == 0 {
+				for _, rest := range factor(n/d, parts-1) {
+					out = append(out, append([]int64{d}, rest...))
+				}
+			}
+		}
+		return out
+	}
+	cells := 0
+	run := func(sh, target, want []int64, refuse bool, what string) {
+		cell := &axisCell{rank: int64(len(sh)), extents: sh, lists: map[int64][]int64{1: target}, refuse: refuse, desc: fmt.Sprintf("shape = %s on an operand of shape %s%s", fmtInts(target), fmtInts(sh), what)}
+		if !refuse {
+			cell.shape = want
+		}
+		cells++
+		ar.run(apply, args, cell, false)
+	}
+	for _, sh := range shapes {
+		n := prodInts(sh)
+		for parts := 1; parts <= 3; parts++ {
+			for _, f := range factor(n, parts) {
+				run(sh, f, f, false, "")
+				for i := range f {
+					// a single -1
+					t := append([]int64{}, f...)
+					t[i] = -1
+					run(sh, t, f, false, "")
+					// a 0 where it copies the very extent the factorization has there
+					if i < len(sh) && sh[i] == f[i] {
+						z := append([]int64{}, f...)
+						z[i] = 0
+						run(sh, z, f, false, "")
+						for j := range f {
+							if j != i {
+								zz := append([]int64{}, z...)
+								zz[j] = -1
+								run(sh, zz, f, false, "")
+							}
+						}
+					}
+					// invalid: two -1
+					for j := i + 1; j < len(f); j++ {
+						t2 := append([]int64{}, f...)
+						t2[i], t2[j] = -1, -1
+						run(sh, t2, nil, true, " (two -1 entries)")
+					}
+				}
+				// invalid: wrong element count
+				bad := append([]int64{}, f...)
+				bad[0]++
+				run(sh, bad, nil, true, " (element count mismatch)")
+			}
+		}
+		// invalid: 0 beyond the rank of the input
+		if len(sh) < 3 {
+			t := make([]int64, len(sh)+1)
+			for i := range t {
+				t[i] = 1
+			}
+			t[0] = n
+			t[len(sh)] = 0
+			run(sh, t, nil, true, " (0 at a position the input does not have)")
+		}
+	}
+	sort.Slice(ar.hits, func(i, j int) bool {
+		if ar.hits[i].kind != ar.hits[j].kind {
+			return ar.hits[i].kind < ar.hits[j].kind
+		}
+		return ar.hits[i].pos < ar.hits[j].pos
+	})
+	per := map[string]int{}
+	for _, h := range ar.hits {
+		per[h.kind]++
+		key := fmt.Sprintf("R35:reshape:%s@%s#%d", h.kind, fname(h.fn), per[h.kind])
+		pos := h.pos
+		switch h.kind {
+		case "refused":
+			c.violate("R35", key, c.pos(pos), "a valid request is refused: with "+h.cell.desc+" this branch is taken and it always ends in an error")
+		case "panic":
+			c.violate("R35", key, c.pos(pos), "a valid request panics: with "+h.cell.desc+": "+h.got)
+		case "wrong-shape":
+			c.violate("R35", key, c.pos(pos), fmt.Sprintf("with %s the shape handed to gorgonia's Reshape is %s, ONNX prescribes %s", h.cell.desc, h.got, fmtInts(h.cell.shape)))
+		case "accepted":
+			c.violate("R35", key, c.pos(pos), fmt.Sprintf("an invalid request is answered with a tensor: with %s gorgonia's Reshape is reached with the acceptable shape %s instead of an error", h.cell.desc, h.got))
+		}
+	}
+	c.counts["R35.cells"] += cells
+	c.counts["R35.reshape_arguments_evaluated"] += ar.reshapes
+	if len(ar.hits) > 0 {
+		return
+	}
+	if ar.reshapes == 0 {
+		c.undecided("R35", "R35:reshape-table", c.pos(apply.Pos()), "the list handed to gorgonia's Reshape could not be evaluated for any cell: the way the shape input reaches it is not recognised")
+		return
+	}
+	c.discharge("R35", "R35:reshape-table", c.pos(apply.Pos()), fmt.Sprintf("%d cells (factorizations of the element count with 0 and -1 at every allowed position; two -1, count mismatch, 0 beyond the rank as invalid requests): %d Reshape arguments evaluated, all as ONNX prescribes; no invalid request reaches Reshape with an acceptable shape", cells, ar.reshapes))
+}
